@@ -6,7 +6,7 @@ import functools
 from fractions import Fraction
 LEVEL = 'proof'
 CLAIM = ("All 27 mat*mat, 9 mat*vec and 9 vec*mat products, transpose, outerProduct, matrixCompMult, the element-wise + - with matrices and scalars, * / with "
-         "scalars on both sides, the compound assignments (+= -= *= /= with scalar / matrix, *= matrix for square shapes), unary + -, pre/post ++ --, the scalar / "
+         "scalars on both sides, the compound assignments (+= -= *= /= with scalar / matrix, *= matrix for square shapes; also with a right-hand side that aliases the assigned matrix: m op= m, and m op= m[c][r] for the first, a middle and the last element), unary + -, pre/post ++ --, the scalar / "
          "component / column-vector constructors, gtc row()/column() getters and setters for every index, the 81 shape-converting constructors, gtx rowMajor*/colMajor*, "
          "matrixCross3/4 and the nine diagonalCxR builders are executed symbolically from their clang IR for every shape; every returned entry is shown equal to a textbook "
          "triple-loop reference written as SMT terms: bit-exact modulo 2^w for integer element types, as a rounding-erased (real) identity for float/double, and IEEE-exact "
